@@ -154,6 +154,44 @@ META3 = {
 }
 
 
+META4 = {
+    "C01": dict(file="bioscrape/simulator.pyx (SafeModelCSimInterface: the disabled flag is reset once per call, not once per reaction)", needs="safe + stochastic, two reactions, the lower-indexed one disabled by a missing reactant", caught_by=["C01"], first_run="caught"),
+    "C02": dict(file="bioscrape/types.pyx (sympy_recursion: module-level cache of parsed expressions keyed by text)", needs="the same expression text parsed for two models that number their species differently", caught_by=["C02"],
+                first_run="missed: each expression was parsed for one model only", strengthened="every expression is parsed a second time under the reversed species numbering and must evaluate to the same value"),
+    "C03": dict(file="bioscrape/types.pyx (Model: the missing-value check looks at the last parameter only)", needs="a parameter without a value that is not the last one registered", caught_by=["C03"],
+                first_run="missed: the missing parameter was the last one in every case", strengthened="missing parameter at every position of the table (numeric rate after it, Hill parameters, rule parameters)"),
+    "C04": dict(file="bioscrape/types.pyx (Model.create_reaction writes the default 'species' string into the caller's propensity dict)", needs="one parameter dict passed to two mass-action reactions with different reactants", caught_by=["C04"],
+                first_run="missed: every reaction had its own dict", strengthened="C04 model `shared_dict`; C03 obligation: create_reaction leaves its arguments unmodified"),
+    "C05": dict(file="bioscrape/simulator.pyx (ModelCSimInterface.compute_stochastic_propensities)", needs="stochastic, non-volume, mass action with a repeated reactant", caught_by=["C05"], first_run="caught"),
+    "C06": dict(file="bioscrape/types.pyx (MassActionPropensity: repeat detection compares neighbours only)", needs="order >= 3 with a repeated reactant that is not adjacent in the list (A+B+A)", caught_by=["C06"],
+                first_run="missed: repeats were always adjacent", strengthened="reactant lists with non-adjacent repeats in C06 and C01"),
+    "C07": dict(file="bioscrape/simulator.pyx (DelayVolumeSSASimulator works on the interface's initial-state buffer instead of a copy)", needs="delay + volume, then any later simulation on the same model", caught_by=["C07"],
+                first_run="missed: the delay+volume loop had step obligations only, no initialisation obligations", strengthened="[delay-volume-loop init] obligations: the loop starts from a copy and the interface's initial state is unchanged afterwards; reuse replay"),
+    "C08": dict(file="bioscrape/types.pyx/.pxd (Rule keeps a 'fired' latch for timed rules)", needs="a rule with a firing time + the same model simulated twice", caught_by=["C08"],
+                first_run="missed: no obligation on the Rule objects' own state", strengthened="stateless_job: rules, propensities and delays have no attribute that differs after an execution; replay simulates one model twice on one stream"),
+    "C09": dict(file="bioscrape/simulator.pyx (VolumeSSASimulator: `<=` -> `<` in the volume-step tie)", needs="total propensity 0 with the grid time equal to the next volume-step time", caught_by=["C09"], first_run="caught"),
+    "C10": dict(file="bioscrape/simulator.pyx (ArrayDelayQueue.set_current_time shifts the pending entries)", needs="a queue handed to a second delay simulation that starts at another time", caught_by=["C10"],
+                first_run="missed: set_current_time was only run on an empty queue", strengthened="queue re-timing job: pending entries keep their absolute due times; replay continues a simulation with the previous queue"),
+    "C11": dict(file="bioscrape/types.pyx (StochasticTimeThresholdVolume.initialize drops the start time)", needs="a growing volume initialised at a time other than 0", caught_by=["C11"],
+                first_run="counterexample found, not replayed (battery initialises at 0): exit 2", strengthened="replay of the division model against the real class: division time located through py_cell_divided, same stream"),
+    "C12": dict(file="bioscrape/sbmlutil.py (import_sbml_parameters zeroes non-constant parameters)", needs="a rule whose target is a parameter with a non-zero value", caught_by=["C12"], first_run="caught"),
+    "C13": dict(file="bioscrape/types.pyx (parse_expression wraps the law in Max(0, .))", needs="a kinetic law or rate rule that is negative at some state", caught_by=["C13"], first_run="caught"),
+    "C14": dict(file="bioscrape/sbmlutil.py (add_parameter rounds values to 6 decimals)", needs="a parameter value with digits beyond the 6th decimal", caught_by=["C14"],
+                first_run="missed: exported values were short decimals", strengthened="exported parameter values must equal the model's (values 0.000123456789012, 2.5000001234567)"),
+    "C15": dict(file="bioscrape/inference.pyx (ModelLikelihood.set_init_params no longer hands the new parameter values to the simulator interface)", needs="deterministic cost on a model with a rule + a second evaluation, or per-trajectory parameter conditions", caught_by=["C15"], first_run="caught"),
+    "C16": dict(file="bioscrape/pid_interfaces.py (priors paired with parameters by position)", needs="prior dict ordered differently from the parameter vector, differing families", caught_by=["C16"],
+                first_run="missed: prior dict and parameter vector had the same order", strengthened="prior dict in reversed order; replay on the real PIDInterface"),
+    "C17": dict(file="bioscrape/types.pyx (Schnitz.__getstate__ drops the mother unless reachable from the root)", needs="pickle/deepcopy of a Schnitz with a mother, or of a sub-lineage", caught_by=["C17"],
+                first_run="partly: counterexample found, generic replay did not cover Schnitz objects: exit 2", strengthened="Schnitz replay kind: single schnitz with a mother, sub-lineage, list of leaves"),
+    "C18": dict(file="bioscrape/analysis.py (module-level cache of the SensitivityAnalysis helper per model)", needs="query, Model.set_params, query again", caught_by=["C18"],
+                first_run="missed: each query used a fresh model", strengthened="history jobs: query, set_params, query again is the derivative at the new values and the model keeps them"),
+    "C19": dict(file="lineage/lineage.pyx (SimulateCellLineage: divided before reached-the-end)", needs="a cell dividing inside the last grid interval", caught_by=["C19"],
+                first_run="counterexample found in the queue step, not replayed (no division in the last interval in the battery): exit 2", strengthened="lineage replay sweeps the end of the grid over a generation time"),
+    "C20": dict(file="bioscrape/simulator.pyx (ArrayDelayQueue.copy shares the buffer)", needs="copy, then add/advance on one queue, observe the other", caught_by=["C20"],
+                first_run="counterexample found, replay copied an empty queue: exit 2", strengthened="copy replay adds a pending entry to the copy and advances it"),
+}
+
+
 def main():
     results = {}
     rp = "/verif/seeded/results.json"
@@ -164,6 +202,8 @@ def main():
         rounds.append((META2, "/tmp/seed2_out", os.path.join(DST, "r2"), ("patch.diff", "demo.py", "notes.md", "patch_original_base.diff")))
     if os.path.isdir("/tmp/seed3_out") or os.path.isdir(os.path.join(DST, "r3")):
         rounds.append((META3, "/tmp/seed3_out", os.path.join(DST, "r3"), ("patch.diff", "demo.py", "notes.md")))
+    if os.path.isdir("/tmp/seed4_out") or os.path.isdir(os.path.join(DST, "r4")):
+        rounds.append((META4, "/tmp/seed4_out", os.path.join(DST, "r4"), ("patch.diff", "demo.py", "notes.md")))
     for table, src_root, dst_root, files in rounds:
       for pid, m in sorted(table.items()):
         src = os.path.join(src_root, pid)
@@ -172,7 +212,7 @@ def main():
         for fn in files:
             if os.path.exists(os.path.join(src, fn)):
                 shutil.copy(os.path.join(src, fn), os.path.join(dst, fn))
-        key = pid if table is META else ("r2/" if table is META2 else "r3/") + pid
+        key = pid if table is META else ("r2/" if table is META2 else "r3/" if table is META3 else "r4/") + pid
         meta = dict(property=pid, changed=m["file"], needs_to_manifest=m["needs"], reported_by_checks=m["caught_by"],
                     first_run=m["first_run"], strengthened=m.get("strengthened", ""),
                     confirmed=["tools/try_seed.sh: (1) `git diff` of the sub-agent's worktree equals patch.diff; (2) the pinned suite run in that worktree: 54 passed; "
